@@ -357,10 +357,20 @@ def translate():
     for n in (ast.walk(write_fn) if write_fn else []):
         if isinstance(n, ast.With) and any('_lock' in ast.unparse(i.context_expr) for i in n.items):
             locked_body = inline_self_calls(n.body, se_cls)
+            # a test may go through a local read earlier in the block (`is_closing = self.websocket.is_closing`
+            # ... `if is_closing:`): the guard is reported by the expression the local stands for
+            local_defs = {}
+            for st in locked_body:
+                if (isinstance(st, ast.Assign) and len(st.targets) == 1 and isinstance(st.targets[0], ast.Name)):
+                    local_defs[st.targets[0].id] = ast.unparse(st.value)
             for st in locked_body:
                 if isinstance(st, ast.If):
                     raised = [ast.unparse(r.exc.func) for r in ast.walk(st) if isinstance(r, ast.Raise) and isinstance(r.exc, ast.Call)]
-                    structure['write_checks'].append((ast.unparse(st.test), raised[0] if raised else '?'))
+                    test_src = ast.unparse(st.test)
+                    if isinstance(st.test, ast.Name) and st.test.id in local_defs:
+                        test_src = local_defs[st.test.id]
+                    if raised:      # a guard refuses the write; other conditionals (e.g. `if closing:` bookkeeping) are not guards
+                        structure['write_checks'].append((test_src, raised[0]))
             structure['sendall_under_lock'] = any(c.endswith('.sendall') for c in calls_in(locked_body))
     for name, key in (('_send_pong', 'send_pong_handlers'), ('_check_auto_ping', 'auto_ping_handlers')):
         fn = find_func(se_cls, name) if se_cls else None
